@@ -149,6 +149,7 @@ theorem callFn_sat (d : Doc) (cfg : ECfg) (name : String) (fi : Plan) (c : Ref)
   have hsec : ∀ m, Sat (fun v => v.ok = true) (secondArg m) := by
     intro m
     refine Sat.bind (harg 1) fun v _ => ?_
+    refine Sat.bind (hsof _ _ (by sat_fin)) fun _ _ => ?_
     repeat' (first | sat_fin | split)
   clear_value arg strOrFirst secondArg
   split
